@@ -45,7 +45,7 @@ theorem or_and_truthiness (a b : Val) (ha : a.isErr = false) (hb : b.isErr = fal
     model's loops): stated for `filter` on a one-element list as the representative instance. -/
 theorem bool_ctor_truthiness (v : Val) (hs : ∀ s, v ≠ .str s) (hb : ∀ b, v ≠ .bool b) :
     dispatch boolOverloads .null [v] = .bool (truthy v) := by
-  cases v <;> simp_all [dispatch, boolOverloads, padNull, Overload.accepts, argsMatch, Tag.matches, isNull,
+  cases v <;> simp_all [dispatch, boolOverloads, Overload.accepts, argsMatch, Tag.matches, isNull,
     List.find?, List.foldl]
 
 /-! ### Part 2 — absorption rules -/
